@@ -7,6 +7,8 @@ import (
 	"context"
 	"sync"
 
+	"github.com/efficientgo/core/errors"
+
 	"github.com/thanos-community/promql-engine/execution/model"
 )
 
@@ -43,6 +45,8 @@ type Worker struct {
 	input    chan *input
 	output   chan model.StepVector
 	doWork   Task
+	// err is set by the worker goroutine before it sends its output.
+	err error
 }
 
 type Task func(workerID int, arg float64, in model.StepVector) model.StepVector
@@ -71,9 +75,25 @@ func (w *Worker) start(done doneFunc, ctx context.Context) {
 			if !ok {
 				return
 			}
-			w.output <- w.doWork(w.workerID, task.arg, task.in)
+			w.output <- w.work(task)
 		}
 	}
+}
+
+// work runs the task. A panic in the task is kept as the error of the next
+// GetOutput call instead of taking down the process.
+func (w *Worker) work(task *input) (out model.StepVector) {
+	defer func() {
+		if e := recover(); e != nil {
+			if err, ok := e.(error); ok {
+				w.err = errors.Wrap(err, "unexpected error")
+			} else {
+				w.err = errors.Newf("unexpected error: %v", e)
+			}
+			out = model.StepVector{}
+		}
+	}()
+	return w.doWork(w.workerID, task.arg, task.in)
 }
 
 func (w *Worker) Send(arg float64, in model.StepVector) error {
@@ -92,6 +112,10 @@ func (w *Worker) GetOutput() (model.StepVector, error) {
 	case <-w.ctx.Done():
 		return model.StepVector{}, w.ctx.Err()
 	default:
-		return <-w.output, nil
+		out := <-w.output
+		if w.err != nil {
+			return model.StepVector{}, w.err
+		}
+		return out, nil
 	}
 }
